@@ -228,6 +228,10 @@ impl<B> Call<WithoutBody, B> {
 
         self.state.skip_method_body_check = true;
 
+        // Unless the headers say otherwise, the body is sent chunked,
+        // same as for methods that expect a body.
+        self.state.writer = BodyWriter::new_chunked();
+
         Call {
             request: self.request,
             analyzed: self.analyzed,
